@@ -4,26 +4,26 @@ import Teleport.Model.RawProto
 namespace Teleport.Drv.D06
 open Teleport Teleport.Drv
 
-/-- one alternative of the observation: class, bytes consumed, and whether the largest buffer
-    request respected the limit. -/
+/-- the observation: class, bytes consumed, whether the largest buffer request and the largest read
+    request respected the limit, and the largest length one `io.ReadFull` asked the connection to fill. -/
 def show1 (lim : Nat) (r : Raw.Read) : String :=
   let cls := match r.out with
     | .ok _ rest => s!"ok rest={rest.length}"
     | .eof => "eof"
     | .size => "size"
     | .reject _ => "reject"
-  s!"{cls} consumed={r.consumed} bounded={if r.alloc ≤ max lim 4 then 1 else 0}"
+  s!"{cls} consumed={r.consumed} bounded={if r.alloc ≤ max lim 4 ∧ r.maxReq ≤ max lim 4 then 1 else 0} ask={r.maxReq}"
 
+/-- `c06unpack` and `c06primed` (the field `prime` — the size of the frame unpacked just before — does
+    not enter: what `readMessage` does is independent of the recycled buffer's capacity). -/
 def c06unpack (f : Fields) : String :=
   match f.hex "bytes", f.nat "limit" with
   | some b, some lim =>
-    let a := show1 lim (Raw.unpack testReg lim 0 b)
-    let c := show1 lim (Raw.unpack testReg lim 1048576 b)
-    if a == c then a else a ++ " || " ++ c
+    show1 lim (Raw.unpack testReg lim b)
   | _, _ => "bad-case"
 
 def handlers : List (String × (Fields → String)) :=
-  [("c06unpack", c06unpack), ("xlive", fun _ => "oracle-only"), ("xproto", fun _ => "oracle-only")]
+  [("c06unpack", c06unpack), ("c06primed", c06unpack), ("xlive", fun _ => "oracle-only"), ("xproto", fun _ => "oracle-only")]
 
 end Teleport.Drv.D06
 
